@@ -115,6 +115,9 @@ def _extra():
     for k, pre in ((5, ""), (3, "c = 200; c += 100; "), (2, "c = 200; c += 100; "), (9, "c = 200; c += 100; ")):
         add("opt-inlined-far-branch-pair", "unsigned char a[4], b[4], c; inline void f(unsigned char p) { if (p > 3) { %s } }" % " ".join("a[X] = b[X];" for _ in range(33)),
             "%sX = 0; f(%d);" % (pre, k), {"init": {"b": 7}, "expect": {"a": 7 if k > 3 else 0}}, "f(%d): p > 3 over 132 bytes, carry %s before the call" % (k, "set" if pre else "clear"))
+    # a reload dropped through the look-ahead (flags not known to describe A) sets no flag: the next `STA x / LDA x` pair must keep its load
+    for x in (5, 255, 0):
+        add("opt-dropped-reload-sets-no-flag", "unsigned char a, b, c, r;", "Y = 0; a = 0; X++; b = 0; c = b; if (c) Y = 1; r = Y;", {"x": x, "expect": {"r": 0, "c": 0}}, "X=%d before X++" % x)
     # inline assembly can change any register: nothing the optimizer knew before it holds after it; a transfer to X / Y changes N and Z
     add("opt-across-inline-asm", "unsigned char r;", "X = 0; asm(\"LDX #5\", 2); X = 0; r = X;", {"expect": {"r": 0}}, "LDX #0 again after the asm line")
     add("opt-across-inline-asm", "unsigned char r, v;", "v = 3; asm(\"LDA #9\", 2); r = v;", {"expect": {"r": 3}}, "A reloaded after the asm line")
